@@ -98,7 +98,9 @@ def generate(seed, tier):
             ops.insert(0, ["sleep", wrng.choice((0.01, 0.1, 0.5))])
         actors.append({"kind": "reader", "name": "R%d" % ri, "ops": ops,
                        "own_process": mrng.random() < 0.6})
-    policy = mrng.choice((["uniform"], ["sticky", 0.5], ["sticky", 0.9], ["sticky", 0.99]))
+    policy = mrng.choice((["uniform"], ["sticky", 0.5], ["sticky", 0.9], ["sticky", 0.99],
+                          ["pct", mrng.randint(1, 3), mrng.choice((300, 1500, 4000))],
+                          ["pct", mrng.randint(1, 3), mrng.choice((300, 1500, 4000))]))
     return {"prop": ID, "seed": seed, "config": cfg.describe(), "storage_kind": storage_kind,
             "actors": actors, "policy": policy, "schedule": None}
 
